@@ -59,3 +59,13 @@ def finding_key(program, impl_lines, model_lines):
             kind = (a.split() or ["?"])[0]
             break
     return f"C15:{'+'.join(xs)}:{kind}"
+
+
+def _observable(lines):
+    """everything but the captured FFTW plan (how the adaptor describes the transform to FFTW is implementation detail: two different
+    guru plans can denote the same transform); the property is about the numbers that come out and the frame"""
+    return [l for l in lines if not l.startswith("plan ")]
+
+
+def property_fails(impl_lines, model_lines):
+    return _observable(impl_lines) != _observable(model_lines)
